@@ -19,7 +19,7 @@ type AutoEscapeExtension struct {
 
 // Init registers the escape functionality with the given Env.
 func (e *AutoEscapeExtension) Init(env *stick.Env) error {
-	env.Visitors = append(env.Visitors, &autoEscapeVisitor{})
+	env.Visitors = append(env.Visitors, &autoEscapeVisitor{ext: e})
 	env.Filters["escape"] = func(ctx stick.Context, val stick.Value, args ...stick.Value) stick.Value {
 		ct := "html"
 		if len(args) > 0 {
@@ -60,6 +60,7 @@ func NewAutoEscapeExtension() *AutoEscapeExtension {
 // AutoEscapeVisitor can be used to automatically apply the "escape" filter
 // to any PrintNode.
 type autoEscapeVisitor struct {
+	ext   *AutoEscapeExtension
 	stack []string
 }
 
@@ -115,5 +116,16 @@ func (v *autoEscapeVisitor) guessTypeFromName(name string) string {
 		// Default to html
 		return "html"
 	}
-	return name[p+1:]
+	ext := name[p+1:]
+	if ext == "txt" {
+		// Plain text is not escaped.
+		return ext
+	}
+	if v.ext != nil {
+		if _, ok := v.ext.Escapers[ext]; ok {
+			return ext
+		}
+	}
+	// Not a known content type, e.g. an inline template containing a dot: default to html.
+	return "html"
 }
